@@ -155,3 +155,20 @@ CONTRACTS.extend([
         ghost_params=("H",),
     ),
 ])
+
+
+# --------------------------------------------------------------------------------------------------------------
+# is_triple_quoted (cdd/shared/pure_utils.py): the predicate by which the CST scanner decides that an accumulating docstring
+# chunk is complete, and by which cst_parse_one_node recognises the chunk as a docstring.  doctrans REPLACES a docstring only
+# when the chunk is recognised; a chunk cut at a line that merely ends in the OTHER triple quote is not, and the converted
+# docstring is then inserted next to the old one (the program gains a statement).  Exact contract: same delimiter at both ends.
+CONTRACTS.append(
+    Contract(
+        "cdd.shared.pure_utils:is_triple_quoted",
+        params={"s": "str"},
+        result="bool",
+        ensures=[
+            "result == (length(s) > 5 and ((startswith(s, \"'''\") and endswith(s, \"'''\")) or (startswith(s, '\"\"\"') and endswith(s, '\"\"\"'))))",
+        ],
+    )
+)
